@@ -464,6 +464,47 @@ func checkC05(c *C05Case) Result {
 		}
 		res.Labels = append(res.Labels, "union-of-two-windows")
 	}
+	if c.UnionWin && c.HasLimit {
+		// the window of a longer sequence made of the same rows: `<unordered query> UNION ALL <unordered query>`
+		// is the unordered result twice in a row; LIMIT / OFFSET on the statement cut exactly positions m..m+n-1
+		rest := ""
+		switch c.Spelling {
+		case "limit":
+			rest = fmt.Sprintf(" LIMIT %d", c.Limit)
+		case "comma":
+			rest = fmt.Sprintf(" LIMIT %d, %d", c.Offset, c.Limit)
+		default:
+			rest = fmt.Sprintf(" LIMIT %d OFFSET %d", c.Limit, c.Offset)
+		}
+		for _, n := range []int{c.Limit, len(u.Rows) + 1} {
+			// the drawn bound, and the bound one past the end of the first arm
+			r := rest
+			if n != c.Limit {
+				r = fmt.Sprintf(" LIMIT %d", n)
+				if c.Spelling != "limit" {
+					continue
+				}
+			}
+			usql := c.sql(false, false) + " UNION ALL " + c.sql(false, false) + r
+			un := c.exec(usql)
+			res.Execs++
+			seq := append(append([]any{}, u.Rows...), u.Rows...)
+			off := c.Offset
+			if c.Spelling == "limit" {
+				off = 0
+			}
+			lo := minInt(off, len(seq))
+			hi := len(seq)
+			if n < len(seq)-lo {
+				hi = lo + n
+			}
+			if !un.OK() || !seqEqual(un.Rows, seq[lo:hi]) {
+				res.Violation = fmt.Sprintf("%s\n  expected exactly positions %d..%d of the %d-row sequence: %s\n  got %s", usql, lo, hi-1, len(seq), val.JSON(seq[lo:hi]), un.Describe())
+				return res
+			}
+		}
+		res.Labels = append(res.Labels, "window-of-a-union")
+	}
 	return res
 }
 
